@@ -221,7 +221,8 @@ def falsified(text, flags, rec=None):
                             outside |= set(variables(g.term))
                 else:
                     outside |= set(variables(bl))
-            if any(v in TEMPLATE_VARS or re.fullmatch(r"G\d+", v) for v in outside):
+            # (the hard-wired X of the #inf/#sup rule was repaired by e4b7945: what is left are the chain rules' names)
+            if any(v in ("__NEXT", "__PREV") for v in outside):
                 keys.add("Hyp_template_vars")
         # D12 / C12a: a negated #min/#max literal
         if "minmax_chains" in on:
